@@ -9,7 +9,7 @@
 EXTENDS AmlNs, Json, IOUtils, TraceLib
 CONSTANT Mode
 Trace == ndJsonDeserialize(IOEnv.TRACE)
-FindingIds == {"D1", "D1b", "D2", "D3", "D5", "D7", "D8", "D9"}
+FindingIds == {"D1", "D1b", "D2", "D2c", "D3", "D5", "D7", "D8", "D9"}
 Open == {d \in FindingIds : IOEnv["OPEN_" \o d] = "1"}
 
 VARIABLES l, mismatch
@@ -22,10 +22,13 @@ Check(e) ==
   ELSE LET j == Judge(st, e.obs) IN IF j = <<>> THEN <<>> ELSE <<l, "C11", j>>
 
 Init == l = 1 /\ mismatch = <<>>
+\* strict: stop at the first program the specification does not allow.  repro: judge every pinned
+\* reproducer and print the verdict (the runner decides between "still fails as recorded" and "passes")
 Next == /\ l <= Len(Trace) /\ mismatch = <<>>
         /\ l' = l + 1
-        /\ mismatch' = Check(Trace[l])
-        /\ Report(mismatch')
+        /\ IF Mode = "strict"
+           THEN mismatch' = Check(Trace[l]) /\ Report(mismatch')
+           ELSE mismatch' = <<>> /\ PrintT(<<"VERIF-REPRO", ToJson(<<Trace[l].id, Check(Trace[l])>>)>>)
 NoMismatch == mismatch = <<>>
 Accepted == TLCGet("stats").diameter - 1 = Len(Trace)
 ====
